@@ -48,6 +48,7 @@ structure Result where
   eKey : KeyId
   dKey : KeyId
   remoteCert : Option CertId
+  remoteKey : Bytes             -- RemoteCert.Certificate.PublicKey()
   remoteIndex : Nat
   localIndex : Nat
   handshakeTime : Nat
@@ -67,6 +68,7 @@ structure St where
   localIndex : Nat := 0
   handshakeTime : Nat := 0
   remoteCert : Option CertId := none
+  remoteKey : Bytes := []       -- public key of the recombined certificate the verifier accepted
   deriving DecidableEq, Repr
 
 inductive Err
@@ -135,7 +137,7 @@ def validateCert (c : Cfg) (s : St) (peerStatic : Bytes) (co : CertOut) : St × 
     let s := if ver ≠ s.myVersion ∧ c.haveCred ver then { s with myVersion := ver } else s
     match co.verify with
     | none => (fail s, some .verify)
-    | some v => ({ s with remoteCert := some v, remoteCertSet := true }, none)
+    | some v => ({ s with remoteCert := some v, remoteKey := pub, remoteCertSet := true }, none)
 
 /-- The "Process payload" block of `processPayload`. -/
 def processIndex (c : Cfg) (s : St) (p : Payload.Payload) (flags : MsgFlags) : St × Option Err :=
@@ -202,7 +204,7 @@ def buildResponse (c : Cfg) (s : St) (now : Nat) (wr : WriteOut) :
 
 /-- `completed(eKey, dKey)`. -/
 def completed (c : Cfg) (s : St) (eKey dKey : KeyId) : Result :=
-  { eKey := eKey, dKey := dKey, remoteCert := s.remoteCert, remoteIndex := s.remoteIndex,
+  { eKey := eKey, dKey := dKey, remoteCert := s.remoteCert, remoteKey := s.remoteKey, remoteIndex := s.remoteIndex,
     localIndex := s.localIndex, handshakeTime := s.handshakeTime, messageIndex := s.msgIdx,
     initiator := c.initiator }
 
